@@ -50,6 +50,10 @@ class Ref:
         self.ub = arr(spec["ub"], (n,))
         self.cl = arr(spec.get("cl", []), (m,))
         self.cu = arr(spec.get("cu", []), (m,))
+        # optional translation of the variables / rows ("large magnitude" family): all functions are
+        # evaluated at x - shift, rows are c(x - shift) + rshift; bounds in the spec are already shifted
+        self.shift = arr(spec.get("shift", [0.0] * n), (n,))
+        self.rshift = arr(spec.get("rshift", [0.0] * m), (m,))
 
     # -- structure --------------------------------------------------------------------------
     @property
@@ -62,7 +66,7 @@ class Ref:
 
     # -- objective --------------------------------------------------------------------------
     def f(self, x):
-        x = np.asarray(x, dtype=float)
+        x = np.asarray(x, dtype=float) - self.shift
         return float(
             0.5 * x @ (self.Q @ x)
             + self.q @ x
@@ -71,16 +75,16 @@ class Ref:
         )
 
     def g(self, x):
-        x = np.asarray(x, dtype=float)
+        x = np.asarray(x, dtype=float) - self.shift
         return self.Q @ x + self.q - self.w * np.sin(x) + self.v * x**3 / 6.0
 
     def hf(self, x):
-        x = np.asarray(x, dtype=float)
+        x = np.asarray(x, dtype=float) - self.shift
         return self.Q + np.diag(-self.w * np.cos(x) + self.v * x**2 / 2.0)
 
     # -- constraints ------------------------------------------------------------------------
     def c(self, x):
-        x = np.asarray(x, dtype=float)
+        x = np.asarray(x, dtype=float) - self.shift
         m = self.m
         if m == 0:
             return np.zeros((0,))
@@ -89,10 +93,12 @@ class Ref:
             val = val + 0.5 * np.einsum("j,ijk,k->i", x, self.Hc, x)
         if self.u.any():
             val = val + self.u * np.sin(self.T @ x)
+        if self.rshift.any():
+            val = val + self.rshift
         return val
 
     def J(self, x):
-        x = np.asarray(x, dtype=float)
+        x = np.asarray(x, dtype=float) - self.shift
         m, n = self.m, self.n
         if m == 0:
             return np.zeros((0, n))
@@ -105,7 +111,7 @@ class Ref:
 
     def hc(self, x, y):
         """sum_i y_i * Hessian(c_i)(x)"""
-        x = np.asarray(x, dtype=float)
+        x = np.asarray(x, dtype=float) - self.shift
         y = np.asarray(y, dtype=float)
         n, m = self.n, self.m
         H = np.zeros((n, n))
